@@ -10,14 +10,18 @@ Import ListNotations.
 Inductive enc_obs := EncOk (b : bytes) | EncFail (c : oclass).
 Inductive dec_obs := DecOk (v : value) | DecMissing (fields : list bytes) (v : value) | DecFail (c : oclass).
 
+(* fmt: 0 compact JSON, 1 pretty JSON, 2 ROR2 header, 3 ROR2 path, 4 ROR2 query (a query parameter's reader) *)
+Inductive op :=
+| OEnc (fmt : nat) (v : value) (o : enc_obs)       (* the writer of format fmt applied to v produced o *)
+| ODec (fmt : nat) (data : bytes) (o : dec_obs).   (* the reader of format fmt applied to data produced o *)
+
 Record case := {
   c_ty : ty;
-  c_val : value;
-  c_floats : list (bool * N * bytes);      (* the text Go's strconv prints for every float of the value (oracle) *)
+  c_floats : list (bool * N * bytes);      (* the text Go's strconv prints for every float involved (oracle) *)
   c_parse : list (nat * bytes * option N); (* strconv.ParseFloat on every candidate text: mode (0: 64; 1: 32; 2: float32(64)), text, bits *)
   c_excl : list bytes;                     (* PathSpec directives of the writer/reader *)
   c_ignore : nat;                          (* leadingScopeToIgnore of the reader *)
-  c_obs : list (enc_obs * dec_obs)         (* compact JSON, pretty JSON, header, path, query *)
+  c_ops : list op
 }.
 
 Definition fuel0 : nat := 64.
@@ -38,10 +42,10 @@ Definition render (c : case) (fmt : nat) (d : doc) : bytes :=
   | _ => render_ror2 fm v2_hex_chars v2_unescaped_path_chars v2_unescaped_query_chars v2_header_escaped_chars v2_empty_string v2_list_prefix FQuery d
   end.
 
-Definition model_enc (c : case) (fmt : nat) : res bytes :=
+Definition model_enc (c : case) (fmt : nat) (v : value) : res bytes :=
   (* only the JSON and header writers can be constructed with excluded fields *)
   let excl := if Nat.leb fmt 2 then new_pathspec (c_excl c) else ps_empty in
-  do d <- enc fam_env v2_wildcard excl fuel0 [] (c_ty c) (c_val c);
+  do d <- enc fam_env v2_wildcard excl fuel0 [] (c_ty c) v;
   Ok (render c fmt d).
 
 Definition enc_agrees (m : res bytes) (o : enc_obs) : bool :=
@@ -82,21 +86,18 @@ Definition dec_agrees (m : dres) (o : dec_obs) : bool :=
   | _, _ => false
   end.
 
-Fixpoint check_obs (c : case) (fmt : nat) (l : list (enc_obs * dec_obs)) : bool :=
-  match l with
-  | [] => true
-  | (eo, dobs) :: r =>
-      enc_agrees (model_enc c fmt) eo
-      && (match eo with EncOk b => dec_agrees (model_dec c fmt b) dobs | EncFail _ => true end)
-      && check_obs c (S fmt) r
+Definition check_op (c : case) (o : op) : bool :=
+  match o with
+  | OEnc fmt v eo => enc_agrees (model_enc c fmt v) eo
+  | ODec fmt data dobs => dec_agrees (model_dec c fmt data) dobs
   end.
+Definition check_case (c : case) : bool := forallb (check_op c) (c_ops c).
 
-Definition check_case (c : case) : bool := check_obs c 0 (c_obs c).
-
-Definition model_out (c : case) : list (res bytes * option dres) :=
-  map (fun i => (model_enc c i,
-                 match nth_error (c_obs c) i with Some (EncOk b, _) => Some (model_dec c i b) | _ => None end))
-      (seq 0 (length (c_obs c))).
+Inductive mres := MEnc (r : res bytes) | MDec (d : dres).
+Definition model_out (c : case) : list mres :=
+  flat_map (fun o => if check_op c o then [] else
+                     [match o with OEnc fmt v _ => MEnc (model_enc c fmt v) | ODec fmt data _ => MDec (model_dec c fmt data) end])
+           (c_ops c).
 
 Fixpoint mismatches_from (i : nat) (l : list case) : list nat :=
   match l with
